@@ -194,9 +194,6 @@ pub fn run(args: &Args) -> Report {
             let mut insts2 = insts.clone();
             let which = k % insts2.len();
             let fam;
-            // (TEMPORARY: the Lean model of the multiplicity check of fix 9daacf5 is being written; until it lands the
-            //  whole-document tie skips deviations that double a token)
-            let mut dup_dev = false;
             if k == 3 || insts2[which].is_empty() {
                 insts2[which] = vec!["GARBAGE".into(), "1".into(), "/begin".into(), "X".into(), "\"s\"".into(), "/end".into(), "X".into(), "2.5".into()];
                 fam = "balanced-garbage";
@@ -217,7 +214,6 @@ pub fn run(args: &Args) -> Report {
                     1 => {
                         let t = insts2[which][i].clone();
                         insts2[which].insert(i, t);
-                        dup_dev = true;
                     }
                     _ => {
                         insts2[which].remove(i);
@@ -283,7 +279,7 @@ pub fn run(args: &Args) -> Report {
                         }
                     }
                     rep.bump(if valid.iter().all(|v| *v) { "deviation:still-valid" } else { "deviation:kept-invalid" });
-                    if d % 5 == 0 && !dup_dev {
+                    if d % 5 == 0 {
                         if let Some((req, ans)) = tie_case_special(&text, false) {
                             rep.tie(req, ans);
                         }
